@@ -4,19 +4,22 @@ Cluster model: `SetNode` (node.go). The new capacity is the resource layer's ans
 capacity request and is an argument (`newCap = none`: no resource change requested).
 `rollbackRestores`: whether the capacity rollback actually rewrites the origin capacity —
 `true` models the repaired code, `false` the code as found (cobalt returned an empty
-`before`, so the rollback call changed nothing; D25).
+`before`, so the rollback call changed nothing; D25). `refused`: the plugin rejects the capacity
+request (invalid layout), nothing is written.
 -/
 namespace Eru.Cluster
 variable {R : Type} [ResAlg R]
 
-def setNode (n : String) (newCap : Option R) (rollbackRestores : Bool := true) : M R Unit := do
+def setNode (n : String) (newCap : Option R) (rollbackRestores : Bool := true) (refused : Bool := false) : M R Unit := do
   readStep "storeGetNode" n                       -- withNodePodLocked / filterNodes
   readStep "pluginGetNodeResourceInfo" n
   let s ← getSt
   let origin := s.cap n
   txn (match newCap with
        | none => pure ()
-       | some c => step "pluginSetCapacity" n (setCap n c))
+       | some c =>
+         if refused then do readStep "pluginSetCapacity" n; refuse   -- the plugin rejects the request: nothing written
+         else step "pluginSetCapacity" n (setCap n c))
       (do step "storeUpdateNodes" n (fun x => x)
           let _ ← attempt (readStep "pluginGetNodeResourceInfo" n)
           pure ())
